@@ -128,8 +128,12 @@ def main():
     lock = json.load(open(lock_path)) if os.path.exists(lock_path) else {}
     ids_now = sorted({o["id"] for o in obligations})
     if a.relock:
-        lock[pid] = ids_now
-        json.dump(lock, open(lock_path, "w"), indent=0, sort_keys=True)
+        import fcntl
+        with open(lock_path + ".flock", "w") as lf:
+            fcntl.flock(lf, fcntl.LOCK_EX)          # several relocks may run side by side
+            lock = json.load(open(lock_path)) if os.path.exists(lock_path) else {}
+            lock[pid] = ids_now
+            json.dump(lock, open(lock_path, "w"), indent=0, sort_keys=True)
         print(f"relocked {pid}: {len(ids_now)} obligation ids")
     missing = [i for i in lock.get(pid, []) if i not in ids_now]
     missing_funcs = sorted({i.split("#")[0] for i in missing})
@@ -244,8 +248,10 @@ def main():
         "wall_s": round(time.time() - t0, 2),
         "violations": len(violations),
     }
-    os.makedirs(os.path.join(HERE, "evidence"), exist_ok=True)
-    json.dump(ev, open(os.path.join(HERE, "evidence", f"{pid}.json"), "w"), indent=1)
+    # self-tests on scratch copies (selftest/*.sh) set VERIF_OUT so that they never overwrite the evidence of the real tree
+    outdir = os.environ.get("VERIF_OUT", HERE)
+    os.makedirs(os.path.join(outdir, "evidence"), exist_ok=True)
+    json.dump(ev, open(os.path.join(outdir, "evidence", f"{pid}.json"), "w"), indent=1)
 
     for ln in lines:
         print(ln)
@@ -271,7 +277,7 @@ def harness_known(hres, open_findings) -> bool:
 
 
 def write_replay(pid, label, payload, kind):
-    d = os.path.join(HERE, "replay", "out")
+    d = os.path.join(os.environ.get("VERIF_OUT", HERE), "replay", "out")
     os.makedirs(d, exist_ok=True)
     path = os.path.join(d, f"{pid}-{label}.json")
     payload = dict(payload)
